@@ -481,9 +481,12 @@ pub enum HKind {
     /// a well-mixing hasher with a per-instance seed; `Clone` of the builder draws a *new* seed, so a
     /// cloned cache must bucket its entries with its own builder, never with its source's
     Reseed,
+    /// a builder that overrides `BuildHasher::hash_one` with a *different* function than its streaming hasher
+    /// computes (as `ahash` does under specialisation): a table must use one route for everything
+    OneShot,
 }
 
-pub const HKINDS: [HKind; 6] = [HKind::Default, HKind::Mix, HKind::Const, HKind::Mod4, HKind::Ident, HKind::Reseed];
+pub const HKINDS: [HKind; 7] = [HKind::Default, HKind::Mix, HKind::Const, HKind::Mod4, HKind::Ident, HKind::Reseed, HKind::OneShot];
 
 impl HKind {
     pub fn name(self) -> &'static str {
@@ -494,6 +497,7 @@ impl HKind {
             HKind::Mod4 => "mod4",
             HKind::Ident => "ident",
             HKind::Reseed => "reseed",
+            HKind::OneShot => "oneshot",
         }
     }
 
@@ -533,6 +537,13 @@ pub enum HH {
 
 impl BuildHasher for HB {
     type Hasher = HH;
+
+    fn hash_one<T: Hash>(&self, x: T) -> u64 {
+        let mut h = self.build_hasher();
+        x.hash(&mut h);
+        let v = h.finish();
+        if self.kind == HKind::OneShot { v.rotate_left(17) ^ 0x5bd1_e995_9e37_79b9 } else { v }
+    }
 
     fn build_hasher(&self) -> HH {
         match self.kind {
